@@ -13,3 +13,19 @@ Proof.
   specialize (Hc r Hr). apply existsb_exists in Hc. destruct Hc as (c & Hin & Heq). apply check_eqb_eq in Heq. subst c.
   apply Ha, Hin.
 Qed.
+
+(* the refusing direction: an input that fails a required clause fails a check the code reaches, and that check is the clause itself *)
+Lemma covered_invalid_refused required reachable passes r :
+  covered required reachable = true -> In r required -> passes r = false ->
+  In r reachable /\ accepts passes reachable = false.
+Proof.
+  unfold covered, accepts. rewrite forallb_forall. intros Hc Hr Hp.
+  specialize (Hc r Hr). apply existsb_exists in Hc. destruct Hc as (c & Hin & Heq). apply check_eqb_eq in Heq. subst c.
+  split; [exact Hin|]. destruct (forallb passes reachable) eqn:E; [|reflexivity].
+  rewrite forallb_forall in E. rewrite (E r Hin) in Hp. discriminate.
+Qed.
+Lemma covered_missing_nil required reachable : covered required reachable = true <-> missing required reachable = [].
+Proof.
+  unfold covered, missing. induction required as [|r l IH]; simpl; [tauto|].
+  destruct (existsb (check_eqb r) reachable); simpl; [exact IH|split; discriminate].
+Qed.
